@@ -35,14 +35,14 @@ FLOOR.update({"folded:F>1": 1, "axis:negative": 1, "axis:nonlast": 1, "complex-l
 
 def plan(tier, seed):
     cases = []
-    reps = 1 if tier == "quick" else 12
+    reps = 1 if tier == "quick" else 24
     for op in pgen.OP_NAMES:
         for rank in (1, 2, 3):
             for k in range(reps * (2 if tier == "quick" else 4)):
                 cases.append({"kind": "op", "op": op, "rank": rank, "k": k, "seed": seed})
-    for k in range(60 if tier == "quick" else 4500):
+    for k in range(60 if tier == "quick" else 13500):
         cases.append({"kind": "compose", "k": k, "seed": seed})
-    for k in range(6 if tier == "quick" else 180):
+    for k in range(6 if tier == "quick" else 540):
         cases.append({"kind": "reference", "k": k, "seed": seed})
     return cases
 
